@@ -314,9 +314,17 @@ def inventory(ctx):
                 for t in targets:
                     if isinstance(t, ast.Name) and mutable:
                         state.add(t.id)
-        globals_used = [n for n in ast.walk(tree) if isinstance(n, (ast.Global, ast.Nonlocal))]
+        globals_used = [n for n in ast.walk(tree) if isinstance(n, ast.Global)]
         exp = EXPECTED_STATE.get(m, set())
-        ok = state == exp and not globals_used
+        from ..symrun import written_names
+        written = written_names(tree)
+        # a module-level container/object that the module never writes to is a constant table, not state
+        new_state = {x for x in state - exp if x in written}
+        consts = sorted(x for x in state - exp if x not in written)
+        if consts:
+            ctx.extra.setdefault("module_level_constant_objects", []).extend(f"{m}.{x}" for x in consts)
+        ok = not new_state and not globals_used
+        state = (state & exp) | new_state
         ctx.record(fam, PROVED if ok else REFUTED, {"module": m, "module_level_mutable_bindings": sorted(state)})
         if not ok:
             ctx.violate(fam, f"state:{m}:{sorted(state)}", f"module {m}: module-level mutable state {sorted(state)} (expected {sorted(exp)}), global statements: {len(globals_used)}",
@@ -331,9 +339,10 @@ def inventory(ctx):
                         and node.func.attr in ("update", "setdefault", "pop", "clear", "popitem", "__setitem__"):
                     writes.append(ast.unparse(node))
             okw = sorted(writes) == ["mub_file_cache[filename]", "stabilizer_file_cache[filename]"]
-            ctx.record(fam, PROVED if okw else REFUTED, {"cache_writes": writes})
+            ctx.record(fam, PROVED if okw else UNKNOWN, {"cache_writes": writes})
             if not okw:
-                ctx.violate(fam, f"cachewrites:{writes}", f"circuit_lookup: caches are written at {writes}, expected only cache[filename] = ...", {"writes": writes}, has_input=False)
+                ctx.undecide(fam, f"structure drift: circuit_lookup writes its caches at {writes}; the frame argument 'only cache[filename] = parse(file)' no longer applies as written "
+                                  "(the dynamic ownership clauses still decide)")
         bad = []
         for node in ast.walk(tree):
             if isinstance(node, ast.Call) and isinstance(node.func, ast.Name) and node.func.id in ("hash", "id", "input", "getenv", "urandom"):
